@@ -32,7 +32,15 @@ def build_impl(dom, cliques, order):
         return i
     np.random.choice = choice
     try:
-        jt = JunctionTree(d, [tuple(c) for c in cliques], order)
+        given = order
+        if isinstance(order, list) and ORDER_FORM[0] % 4 == 1:
+            given = iter(list(order))            # a one-shot iterator
+        elif isinstance(order, list) and ORDER_FORM[0] % 4 == 2:
+            given = (a for a in list(order))     # a generator
+        elif isinstance(order, list) and ORDER_FORM[0] % 4 == 3:
+            given = tuple(order)
+        ORDER_FORM[0] += 1
+        jt = JunctionTree(d, [tuple(c) for c in cliques], given)
     finally:
         np.random.choice = real_choice
     nodes = [list(n) for n in jt.maximal_cliques()]
@@ -42,7 +50,10 @@ def build_impl(dom, cliques, order):
     nbrs = {tuple(k): set(map(tuple, v)) for k, v in jt.neighbors().items()}
     n = len(dom)
     picks = [draws[i:i + n] for i in range(0, len(draws), n)] if n else []
-    return {'picks': picks, 'order': list(jt.elimination_order), 'nodes': nodes, 'edges': edges, 'mp_order': mp, 'seps': seps, 'nbrs': nbrs}
+    return {'picks': picks, 'order': list(order) if isinstance(order, list) else list(jt.elimination_order), 'nodes': nodes, 'edges': edges, 'mp_order': mp, 'seps': seps, 'nbrs': nbrs}
+
+
+ORDER_FORM = [0]
 
 
 def spec(dom, cliques, art):
